@@ -5,6 +5,10 @@ CONSTANTS
   G6First = {0, 1, 65535}
   Ports = {0, 1, 9, 10, 99, 100, 999, 1000, 9999, 10000, 65535}
   PathLens = {1, 2, 50, 106, 107}
+  PortLo = 1
+  PortHi = 0
+  Seed = 1
+  NRand = 300
 INVARIANTS RoundTripAddr RoundTripAddrPort RoundTripBracketed RoundTripNet Rfc5952Shape CapsOrdered
 CONSTRAINT Emit
 CHECK_DEADLOCK FALSE
